@@ -76,6 +76,8 @@ func readComcastEbp(data []byte) (ebp *comcastEbp, err error) {
 	}
 
 	index := uint8(0)
+	// have reports whether n more bytes can be read at index
+	have := func(n int) bool { return int(index)+n <= len(data) }
 
 	ebp.DataFieldTag = data[index]
 	index += uint8(1)
@@ -94,22 +96,34 @@ func readComcastEbp(data []byte) (ebp *comcastEbp, err error) {
 	}
 
 	if ebp.ExtensionFlag() {
+		if !have(1) {
+			return nil, gots.ErrInvalidEBPLength
+		}
 		ebp.ExtensionFlags = data[index]
 		index += uint8(1)
 	}
 
 	if ebp.SapFlag() {
+		if !have(1) {
+			return nil, gots.ErrInvalidEBPLength
+		}
 		ebp.SapType = data[index]
 		index += uint8(1)
 	}
 
 	if ebp.GroupingFlag() {
+		if !have(1) {
+			return nil, gots.ErrInvalidEBPLength
+		}
 		group := data[index]
 		ebp.Grouping = append(ebp.Grouping, group)
 		index += uint8(1)
 	}
 
 	if ebp.TimeFlag() {
+		if !have(8) {
+			return nil, gots.ErrInvalidEBPLength
+		}
 		ebp.TimeSeconds = binary.BigEndian.Uint32(data[index : index+4])
 		index += uint8(4)
 
